@@ -10,7 +10,7 @@ from __future__ import annotations
 
 import ast
 
-from pv.q import text as qtext
+from pv.q import text as qtext, has_stmt, has_if, find_if
 from pv.model import AnalysisError, walk_no_nested, params, UNKNOWN
 from pv.norm import single_defs
 
@@ -249,7 +249,7 @@ def rule_e(model, rep):
     fn = model.func(UH, "HasRounds._clip_to_desired_rounds")
     body = [ast.unparse(x) for x in fn.body if not (isinstance(x, ast.Expr) and isinstance(x.value, ast.Constant))]
     want = ["mnd = cls.min_desired_rounds or 0", "if rounds < mnd:\n    return mnd", "mxd = cls.max_desired_rounds",
-            "if mxd and rounds > mxd:\n    return mxd", "return rounds"]
+            "if mxd is not None and rounds > mxd:\n    return mxd", "return rounds"]
     rep.check(body == want, R, site(UH, "HasRounds._clip_to_desired_rounds"), " | ".join(body), "clip(r) = max(min_desired, min(max_desired, r))",
               witness="the default cost is not clipped into the configured window")
 
@@ -277,6 +277,53 @@ def rule_f(model, rep):
     rep.check(d is None, R, site(UH, "PrefixWrapper._derived_from"), repr(d), "wrappers that were not created by using() own nothing")
 
 
+def rule_chain(model, rep):
+    """a window made of an inherited maximum and an explicit minimum must be checked like one made of two explicit values"""
+    R = "C09.g-rounds-window"
+    fn = model.func(UH, "HasRounds.using")
+    inh = find_if(fn, "max_desired_rounds is None")
+    if not inh:
+        rep.undecided(R, site(UH, "HasRounds.using") + " inherited max", "branch for an inherited maximum not found")
+        return
+    body_txt = " ".join(ast.unparse(x) for x in inh[-1].body)
+    compares = "min_desired_rounds" in body_txt and ("<" in body_txt or ">" in body_txt)
+    if compares:
+        rep.hold(R, site(UH, "HasRounds.using") + " inherited max", "an inherited maximum is compared with the new minimum")
+    else:
+        rep.violation(R, site(UH, "HasRounds.using") + " inherited max", "max_desired_rounds = cls.max_desired_rounds  # never compared with an explicit min_desired_rounds",
+                      "the `max below min` check runs only when the maximum is passed explicitly; an inherited maximum is taken as is",
+                      witness="pbkdf2_sha256.using(max_rounds=10).using(min_rounds=20) has min=20, max=10, default=20: every fresh hash is flagged by its own needs_update() "
+                              "(the same two settings in one call raise ValueError)")
+
+
+def rule_zero_max(model, rep):
+    """0 is a legal cost (sun_md5_crypt has min_rounds = 0), so an upper limit of 0 is a limit: `if max and rounds > max` treats it as unset"""
+    R = "C09.i-zero-is-a-value"
+    n = 0
+    for q in ("HasRounds._clip_to_desired_rounds", "HasRounds._calc_needs_update", "HasRounds.using", "HasRounds._calc_vary_rounds_range"):
+        fn = model.func(UH, q)
+        alias = {"max_desired_rounds", "default_rounds"}
+        for a in walk_no_nested(fn):
+            if isinstance(a, ast.Assign) and isinstance(a.targets[0], ast.Name) and ast.unparse(a.value) in ("cls.max_desired_rounds", "self.max_desired_rounds"):
+                alias.add(a.targets[0].id)
+        for node in walk_no_nested(fn):
+            tests = []
+            if isinstance(node, ast.BoolOp) and isinstance(node.op, ast.And):
+                tests = [v for v in node.values[:-1]]
+            elif isinstance(node, ast.Assert):
+                tests = [node.test]
+            for v in tests:
+                nm = v.id if isinstance(v, ast.Name) else (v.attr if isinstance(v, ast.Attribute) else None)
+                if nm in alias and nm != "default_rounds" or (nm == "default_rounds" and isinstance(node, ast.Assert)):
+                    n += 1
+                    rep.violation(R, site(UH, q), f"{ast.unparse(node)[:70]}  # truthiness of `{nm}`",
+                                  f"`{nm}` is tested by truthiness although 0 is a legal cost for formats whose min_rounds is 0 (sun_md5_crypt)",
+                                  witness="sun_md5_crypt.using(max_rounds=0).hash('pw') carries rounds=34000 and needs_update('$md5,rounds=7$...') is False; "
+                                          "CryptContext(['sun_md5_crypt'], sun_md5_crypt__rounds=0, vary_rounds=0.1).hash() raises AssertionError")
+    if not n:
+        rep.hold(R, site(UH, "HasRounds"), "upper limit and default are compared with `is not None`")
+
+
 def rule_gh(model, rep):
     R = "C09.g-rounds-window"
     fn = model.func(UH, "HasRounds._generate_rounds")
@@ -287,9 +334,16 @@ def rule_gh(model, rep):
     rep.check("rounds = cls.default_rounds" in txt, R, site(UH, "HasRounds._generate_rounds"), "rounds = cls.default_rounds", "generation starts from the (clipped) default")
     fn = model.func(UH, "HasRounds._calc_vary_rounds_range")
     rets = [ast.unparse(n.value) for n in walk_no_nested(fn) if isinstance(n, ast.Return)]
-    rep.check("(cls._clip_to_desired_rounds(lower), cls._clip_to_desired_rounds(upper))" in rets, R, site(UH, "HasRounds._calc_vary_rounds_range"),
+    clipped = {e for e in ("lower", "upper") if f"cls._clip_to_desired_rounds({e})" in qtext(fn)}
+    rep.check(clipped == {"lower", "upper"}, R, site(UH, "HasRounds._calc_vary_rounds_range"),
               "; ".join(rets), "both ends of the variation range are clipped to the desired window",
               witness="default_rounds=max with vary_rounds>0 yields hashes above max_rounds (flagged for update at once)")
+    # the desired window may be unset (then _clip_to_desired_rounds only enforces >= 0): the range must also respect the format's own limits
+    hard_lo = has_stmt(fn, "lower = max(lower, cls.min_rounds)") or has_stmt(fn, "lower = max(cls.min_rounds, lower)")
+    hard_hi = any(isinstance(n, ast.If) and "cls.max_rounds" in ast.unparse(n.test) and any(ast.unparse(x) in ("upper = min(upper, cls.max_rounds)", "upper = min(cls.max_rounds, upper)") for x in n.body) for n in walk_no_nested(fn))
+    rep.check(hard_lo and hard_hi, R, site(UH, "HasRounds._calc_vary_rounds_range") + " hard limits", "; ".join(rets) + ("" if hard_lo else "  # lower end not raised to cls.min_rounds") + ("" if hard_hi else "  # upper end not capped at cls.max_rounds"),
+              "the variation range is also clamped to the format's hard min_rounds / max_rounds",
+              witness="sha256_crypt.using(default_rounds=1000, vary_rounds=0.1).hash('pw') raises ValueError('rounds (9xx) is too low, must be at least 1000') on about half of the calls; bcrypt.using(default_rounds=31, vary_rounds=1.0) draws from (0, 32)")
     rep.check("lower = linear_to_native(default_rounds - vary_rounds, False)" in qtext(fn) and
               "upper = linear_to_native(default_rounds + vary_rounds, True)" in qtext(fn), R, site(UH, "HasRounds._calc_vary_rounds_range"),
               "default -/+ vary", "range is default_rounds -/+ vary_rounds")
@@ -377,6 +431,8 @@ def run(model, rep):
     rule_e(model, rep)
     rule_f(model, rep)
     rule_gh(model, rep)
+    rule_zero_max(model, rep)
+    rule_chain(model, rep)
     from . import shared, c04
     c04.rule_d(model, shared.Renamed(rep, {"C04.d": "C09.g-generator-inside-window"}))
     shared.falsy_zero_lint(model, rep, "C09.i-zero-is-a-value", lambda un: un.startswith(("passlib.handlers", "passlib.utils.handlers")),
